@@ -441,6 +441,16 @@ pub fn ty_from_bytes<T: Deserializable>(bytes: &[u8]) -> OpResult {
     Ok(obj! {"reser": ser(&v)})
 }
 
+/// `==` on two deserialized values (both orders) and on a clone; booleans as one byte of hex
+pub fn key_eq<T: Deserializable + PartialEq + Clone>(a: &[u8], b: &[u8]) -> OpResult {
+    let x = de::<T>("deser:a", a)?;
+    let y = de::<T>("deser:b", b)?;
+    let h = |v: bool| if v { "01" } else { "00" };
+    #[allow(clippy::redundant_clone)]
+    let c = x.clone() == x;
+    Ok(obj! {"eq": h(x == y), "sym": h(y == x), "clone": h(c)})
+}
+
 pub fn ty_write_exact<T: Deserializable>(bytes: &[u8], buflen: usize) -> OpResult {
     let v = de::<T>("deser:value", bytes)?;
     let mut buf = vec![0xAAu8; buflen];
